@@ -22,10 +22,19 @@ MayRefuse == {"isbn.to_isbn10", "de.stnr.to_country_number", "it.aic.to_base32",
 (* rows whose target has no validator of its own in the library (nothing to check for K1) *)
 NoTarget == {"meid.to_pseudo_esn", "pe.ruc.to_dni"}
 
+(* an ISAN without its check characters: 16 (root + episode) or 24 (+ version) hexadecimal digits *)
+IsanCore(x) == CASE Len(x) = 17 -> SubSeq(x, 1, 16)
+                 [] Len(x) = 26 -> SubSeq(x, 1, 16) \o SubSeq(x, 18, 25)
+                 [] Len(x) = 25 -> SubSeq(x, 1, 16) \o SubSeq(x, 18, 25)
+                 [] OTHER -> x
 Embeds(row, v, d, opt) ==
   CASE row \in {"isbn.to_isbn13", "isbn.format_convert", "isbn.validate_convert"} -> IF Len(v) = 13 THEN d = v
                                  ELSE Len(d) = 13 /\ Slice(d, 1, 3) = <<57, 55, 56>> /\ Slice(d, 4, 12) = Slice(v, 1, 9)
     [] row = "isbn.to_isbn10" -> IF Len(v) = 10 THEN d = v ELSE Len(d) = 10 /\ Slice(d, 1, 9) = Slice(v, 4, 12)
+    [] row \in {"isan.add_check_digits", "isan.strip_check_digits"} ->
+         /\ IsanCore(d) = IsanCore(v)
+         /\ (row = "isan.add_check_digits" => Len(d) \in {17, 26})
+         /\ (row = "isan.strip_check_digits" => Len(d) \in {16, 24})
     [] row = "ismn.to_ismn13" -> IF Len(v) = 13 THEN d = v ELSE d = <<57, 55, 57, 48>> \o Slice(v, 2, 10)
     [] row = "issn.to_ean" -> Len(d) = 13 /\ Slice(d, 1, 3) = <<57, 55, 55>> /\ Slice(d, 4, 10) = Slice(v, 1, 7) /\ Slice(d, 11, 12) = opt
     [] row = "cusip.to_isin" -> Len(d) = 12 /\ Slice(d, 1, 2) = <<85, 83>> /\ Slice(d, 3, 11) = v
